@@ -267,6 +267,9 @@ pub struct Knobs {
     /// only the simulated kernel thread does. Off by default so that
     /// single-threaded scenarios do not need a kernel thread.
     pub sqpoll_strict: bool,
+    /// Under the baton scheduler: a caller returning from `io_uring_enter` on a
+    /// kernel-thread ring with unconsumed submissions yields every n-th time.
+    pub sqpoll_yield_every: u32,
 }
 
 impl Default for Knobs {
@@ -288,6 +291,7 @@ impl Default for Knobs {
             sync_cancel_normal: 0,
             inject_cq_garbage: false,
             sqpoll_strict: false,
+            sqpoll_yield_every: 1,
         }
     }
 }
@@ -325,6 +329,7 @@ pub struct Counters {
 }
 
 pub struct Simk {
+    pub sqpoll_spins: u64,
     pub rings: HashMap<i32, Ring>,
     pub dead_rings: Vec<Ring>,
     pub reqs: HashMap<u64, Req>,
@@ -450,6 +455,7 @@ pub fn reset(seed: u64) {
 impl Simk {
     pub fn new(seed: u64) -> Simk {
         Simk {
+            sqpoll_spins: 0,
             rings: HashMap::new(),
             dead_rings: Vec::new(),
             reqs: HashMap::new(),
